@@ -123,6 +123,7 @@ def run(ctx, rep):
     # --------------------------------------------------------------------- T3'
     _check_trace_one(ctx, rep)
     _check_identity_sum(ctx, rep)
+    _check_povm_psd_all(ctx, rep)
     _check_gate_tp_row(ctx, rep)
     _check_gate_tp_generic(ctx, rep)
     _check_psd(ctx, rep)
@@ -260,6 +261,33 @@ def _check_trace_one(ctx, rep):
         rep.violation("T3'", f, call, "trace of %s, not of the density matrix" % (unparse(dm) if dm is not None else "?"), node=call)
     else:
         rep.holds("T3'", f, call, "trace(density matrix) vs literal 1", node=call)
+
+
+def _check_povm_psd_all(ctx, rep):
+    """Povm.is_positive_semidefinite tests EVERY element: the loop ranges over the whole list of matrices on every path"""
+    f = ctx.ix.funcs.get(OBJ + "povm.Povm.is_positive_semidefinite")
+    if f is None:
+        return
+    loops = [n for n in own_nodes(f.node) if isinstance(n, (ast.For, ast.comprehension))]
+    con = "every POVM element is tested"
+    if len(loops) != 1:
+        rep.undecided("T3'", f, con, "expected one loop over the elements")
+        return
+    it = loops[0].iter
+    binds = []
+    if isinstance(it, ast.Name):
+        binds = [n.value for n in own_nodes(f.node) if isinstance(n, ast.Assign) and len(n.targets) == 1 and isinstance(n.targets[0], ast.Name)
+                 and n.targets[0].id == it.id]
+    exprs = binds if binds else [it]
+    sliced = [e for e in exprs if isinstance(e, ast.Subscript)]
+    whole = [e for e in exprs if isinstance(e, ast.Call) and (dotted(e.func) or "").split(".")[-1] in ("matrices", "matrices_with_sparsity")]
+    if sliced:
+        rep.violation("T3'", f, con, "the elements tested are `%s`: an element left out (e.g. the one implied by the equality constraint) can be "
+                                     "non-positive while the verdict is True" % unparse(sliced[0]), node=sliced[0])
+    elif whole and len(whole) == len(exprs):
+        rep.holds("T3'", f, con, "loop over %s" % unparse(whole[0]), node=loops[0] if isinstance(loops[0], ast.For) else f.node)
+    else:
+        rep.undecided("T3'", f, con, "iterable %s not recognised" % unparse(it))
 
 
 def _check_identity_sum(ctx, rep):
